@@ -1,4 +1,5 @@
 pub mod c01;
+pub mod c03;
 pub mod c12;
 pub mod c14;
 pub mod syncsys;
@@ -32,6 +33,17 @@ pub fn replay_file(path: &std::path::Path) -> i32 {
                 }
             }
         }
+        k if k.starts_with("c03-") => match c03::replay(case) {
+            Ok(()) => {
+                println!("replay: no violation");
+                0
+            }
+            Err(e) => {
+                println!("replay: {e}");
+                println!("VIOLATION property=C03 replay={}", path.display());
+                1
+            }
+        },
         k => {
             eprintln!("unknown replay kind {k}");
             2
